@@ -59,7 +59,14 @@ func c13Case(r *core.Run, idx int, rng *rand.Rand) {
 	d := stdSP(0)
 	d.SLO = nil
 	for k := rng.Intn(4); k > 0; k-- {
-		d.SLO = append(d.SLO, spsim.SLO{Binding: []string{spsim.BindPost, spsim.BindRedirect}[rng.Intn(2)], Location: hostileEndpoint(rng, "spa.example", k, false)})
+		slo := spsim.SLO{Binding: []string{spsim.BindPost, spsim.BindRedirect}[rng.Intn(2)], Location: hostileEndpoint(rng, "spa.example", k, false)}
+		switch rng.Intn(8) {
+		case 0: // the optional ResponseLocation attribute: the statement names the location, so that is where the message goes
+			slo.ResponseLocation = fmt.Sprintf("https://spa.example/slo-return/%d", k)
+		case 1:
+			slo.ResponseLocation = slo.Location
+		}
+		d.SLO = append(d.SLO, slo)
 	}
 	mustRegister(e.W, d, "appA")
 	mustRegister(e.W, stdSP(1), "appB")
